@@ -242,10 +242,30 @@ def rule_params(model):
             r.finding(fi.where, f"int_param(..., '{p}')", f'the batch '
                       f'parameter {p} is not read through int_param '
                       '(literal or variable name)', node=fi.node, ctx=fi)
-        elif got[p] != p:
-            r.finding(fi.where, f"{got[p]} = int_param(..., '{p}')",
-                      f'parameter {p} is stored in `{got[p]}`', node=fi.node,
-                      ctx=fi)
+    # each parameter reaches the window computation in its own position:
+    # opt(start, end, size, orphan, sequence) -- whatever the locals are
+    # called
+    var_of = {k: v for k, v in got.items() if v}
+    key_of = {v: k for k, v in var_of.items()}
+    wins = [c for c in own_nodes(fi.node) if isinstance(c, ast.Call)
+            and any(x.endswith(':opt') for x in model.callee_names(c, fi))
+            and len(c.args) >= 5 and all(
+                isinstance(a, ast.Name) for a in c.args[:4])
+            and all(a.id in key_of for a in c.args[:4])]
+    for c in wins:
+        want = ('start', 'end', 'size', 'orphan')
+        have = tuple(key_of[a.id] for a in c.args[:4])
+        r.instance(fi.where, c, 'parameters in their positions'
+                   if have == want else f'POSITIONS {have}')
+        if have != want:
+            r.finding(fi.where, c, 'the window computation receives the '
+                      f'batch parameters {have} where it expects {want}',
+                      node=c, ctx=fi)
+    if not wins and all(p_ in got for p_ in ('start', 'end', 'size',
+                                              'orphan')):
+        raise AnalysisError('C11.R3: the window computation of the '
+                            'displayed batch (opt called with the four '
+                            'parameters) was not found')
     # int_param decides literal vs variable by trying int()
     ips = [model.find_func(ms, 'int_param') for ms in ('DT_In', 'DT_Util')]
     ips = [x for x in ips if x is not None]
